@@ -6,6 +6,8 @@ IdOf(i) == CASE i = 1 -> "r1" [] i = 2 -> "r2" [] i = 3 -> "r3" [] i = 4 -> "r4"
 Cond == { <<{}, FALSE>>, <<{404}, FALSE>>, <<{404}, TRUE>>, <<{}, TRUE>> }
 Cond3 == { <<{}, FALSE>>, <<{404}, FALSE>>, <<{404}, TRUE>> }
 Cond2 == { <<{}, FALSE>>, <<{404}, FALSE>> }
+\* lists of several codes (the harness writes them in DESCENDING order: the list is not sorted by the rule author)
+CondM == Cond3 \cup { <<{404, 500}, FALSE>>, <<{200, 500}, TRUE>> }
 
 R(i, rk, sc, cd, hf, tgt, bf, lg, rs, st, sm) ==
   [id |-> IdOf(i), n |-> i, rank |-> rk, sc |-> IF sc THEN 300 + i ELSE 0, codes |-> cd[1], ex |-> cd[2],
@@ -41,7 +43,7 @@ PoolD4 == PoolD({1, 2, 3, 4}, {<<{}, FALSE>>}, {"on"})
 \* log / status fallback through JSON: an unconditional rule below a conditional one, both values of the flag
 PoolE(ids) ==
   UNION { { R(i, rk, TRUE, cd, AddOwn(i), "", <<>>, lg, FALSE, FALSE, "none") :
-              rk \in {0, 1}, cd \in Cond3, lg \in {"on", "off"} } : i \in ids }
+              rk \in {0, 1}, cd \in CondM, lg \in {"on", "off"} } : i \in ids }
 PoolEq == PoolE({1, 2})
 
 \* stop / reset on rules that may be sampled out: a skipped rule contributes nothing, not even its flags
